@@ -23,7 +23,9 @@
   `Tx.Inscribe` before fix f38a724 had the rows `callwrite:bscript.Script.Append…#0` with origin
   `deref:field:bscript.InscriptionArgs.LockingScriptPrefix` (finding F-C20-04); a signature-hash routine that appends to
   `Input.PreviousTxScript`, a P2PKH constructor that appends to the caller's hash, `ToASM` appending to the script, a JSON
-  decoder that copies into the destination's old buffer are rows of the same kind.
+  decoder that copies into the destination's old buffer are rows of the same kind; so was the ordinals flows' reordering of the
+  caller's UTXO slice before fix 7f200cd (finding F-C20-05: `append[*bt.UTXO]` with a `field:` origin) — package ord is in
+  the table since then.
 -/
 import GoBT.Gen.WritesLib
 namespace GoBT.Script.WriteReviewLib
@@ -71,6 +73,10 @@ def reviewed : List (String × String × List String × String) := [
   ("bt.nodeUTXOsWrapper.UnmarshalJSON", "append[*bt.UTXO]", ["deref:param:nn"], "the destination list being filled"),
   ("bt.nodeTxsWrapper.UnmarshalJSON", "extcall:json.Unmarshal", ["elem:local:jj"], "json.RawMessage elements of the decoded list, read only"),
   ("bt.nodeUTXOsWrapper.UnmarshalJSON", "extcall:json.Unmarshal", ["elem:local:jj"], "as above"),
+  ("ord.AcceptOrdinalSaleListing", "append[*bt.Input]", ["field:bt.Tx.Inputs"], "the input list of the transaction the flow is building"),
+  ("ord.AcceptOrdinalSaleListing2Dummies", "append[*bt.Input]", ["field:bt.Tx.Inputs"], "as above"),
+  ("ord.MakeBidToBuy1SatOrdinal", "append[*bt.Input]", ["field:bt.Tx.Inputs"], "as above"),
+  ("ord.MakeBidToBuy1SatOrdinal2Dummies", "append[*bt.Input]", ["field:bt.Tx.Inputs"], "as above"),
   ("bt.Tx.FillAllInputs", "extcall:(bt.UnlockerGetter).Unlocker", ["field:bt.Input.PreviousTxScript"],
    "the caller's own getter receives the script it is asked to unlock")
 ]
@@ -105,7 +111,7 @@ def rowOk (r : String × String × List String) : Bool :=
 def groups : List (String × List String) := [
   ("C02", ["bt.Tx.CalcInputPreimage", "bt.Tx.CalcInputSignatureHash", "bt.Tx.OutputsHash", "bt.Tx.PreviousOutHash",
            "bt.Tx.SequenceHash", "bt.Output.BytesForSigHash"]),
-  ("C20", ["bt.Tx.Inscribe", "bt.Tx.InscribeSpecificOrdinal", "bscript.Script.ParseInscription", "bscript.Script.IsInscribed"]),
+  ("C20", ["bt.Tx.Inscribe", "bt.Tx.InscribeSpecificOrdinal", "bscript.Script.ParseInscription", "bscript.Script.IsInscribed", "ord."]),
   ("C15", ["bscript.NewP2PKH", "bscript.NewAddress", "bscript.a25.", "bscript.checksum", "bscript.Base58",
            "bscript.addressToPubKeyHashStr", "bscript.ValidateAddress"]),
   ("C17", ["bscript.createBIP276", "bscript.EncodeBIP276", "bscript.DecodeBIP276"]),
